@@ -229,6 +229,11 @@ def gen_chain_case(rng) -> dict[str, Any]:
         if i < n - 1:
             tag = rng.choice(["render", "render", "include"]) if i == 0 or "render" not in partials.get("_tags", "") else "render"
             call = "{% " + tag + " '" + names[i + 1] + "' %}"
+            r = rng.random()
+            if r < 0.3:
+                # the other calling forms: once per item of an array, with a bound variable, with keyword arguments
+                form = rng.choice([" for ys", " for ys as it", " with s", " with s as it", ", a: s, b: ys", " for (1..2)"])
+                call = "{% " + tag + " '" + names[i + 1] + "'" + form + " %}"
             if rng.random() < 0.25:
                 call = "{% for q in (1..2) %}" + call + "{% endfor %}"
             body += call + (binds(i) if rng.random() < 0.4 else "")
@@ -245,7 +250,7 @@ def gen_chain_case(rng) -> dict[str, Any]:
             partials[nm] = partials[nm].replace("{% include '", "{% render '")
         if "render '" in partials[nm]:
             seen_render = True
-    d = {"s": rng.choice(["é", "日本語", "plain text", "y" * 40]), "ys": ["é", "ß", "x"][: rng.randint(0, 3)]}
+    d = {"s": rng.choice(["é", "日本語", "plain text", "y" * 40]), "ys": ["é", "ß", "x"][: rng.randint(1, 3)]}
     return {"source": src, "partials": partials, "data": V.enc(d), "async": rng.random() < 0.15}
 
 
